@@ -343,6 +343,17 @@ func runC10(t fataler, c c10Case) (string, c10Result) {
 		}
 		switch upTo {
 		case "all":
+			if o.Len%2 == 1 || o.Frags == 3 {
+				// everything in ONE segment, with a further complete frame (an unsolicited Pong) behind the message: when the
+				// read of the message returns, bytes of the next frame are already sitting in the library's buffer
+				var seg []byte
+				for _, f := range append(append([]ref.Frame(nil), frames...), ref.Frame{Fin: true, Opcode: ref.OpPong, Payload: []byte("behind the message")}) {
+					seg = append(seg, p.prep(f).Encode()...)
+				}
+				evid.For("C10").Class("message-and-the-next-frame-arrive-in-one-segment", 1)
+				p.sendRaw(seg)
+				break
+			}
 			for _, f := range frames {
 				p.send(f)
 			}
